@@ -30,11 +30,11 @@ def _gen_cell(modname, ob, fn, pres, post, raises, ret):
     if raises:
         doc += '    raises: %s\n' % ', '.join(raises)
     src = ('from typing import *\n'
-           'import %s as H\n'
+           'import %s as _HM\n'
            'from %s import *\n\n'
            'def cell(%s) -> %s:\n'
            '    """\n%s    """\n'
-           '    return H.%s(%s)\n') % (modname, modname, ob.sig, ret, doc, fn, ', '.join(ob.argnames()))
+           '    return _HM.%s(%s)\n') % (modname, modname, ob.sig, ret, doc, fn, ', '.join(ob.argnames()))
     return src
 
 
